@@ -10,6 +10,38 @@ import (
 	"github.com/Comcast/gots/v2"
 )
 
+// Helpers used by contract clauses (the generated clause functions call them as well).
+func verifForall(lo, hi int, f func(int) bool) bool {
+	for i := lo; i < hi; i++ {
+		if !f(i) {
+			return false
+		}
+	}
+	return true
+}
+
+func verifExists(lo, hi int, f func(int) bool) bool {
+	for i := lo; i < hi; i++ {
+		if f(i) {
+			return true
+		}
+	}
+	return false
+}
+
+// verifFresh(x): x was allocated during the call (decided symbolically only).
+func verifFresh(x interface{}) bool { return true }
+
+// verifSeparate(a, b): a and b are different memory objects (decided symbolically only).
+func verifSeparate(a, b interface{}) bool { return true }
+
+// verifSnap returns an independent copy of b (used under old(...)).
+func verifSnap(b []byte) []byte {
+	c := make([]byte, len(b))
+	copy(c, b)
+	return c
+}
+
 // ---------------------------------------------------------------- C01: transport header fields
 
 func specTEI(p *Packet) bool  { return p[1]>>7 == 1 }
@@ -329,5 +361,402 @@ func lemmaSetGet(p *Packet, b bool, pid int, tsc TransportScramblingControlOptio
 //@   requires p != nil && 0 <= pid && pid <= 8191 && tsc <= 3 && 0 <= cc && cc <= 15
 //@   ensures result
 //@   modifies *p
+
+
+// ---------------------------------------------------------------- adaptation field layout (C02, C03)
+
+// ISO/IEC 13818-1 2.4.3.4: adaptation_field_length at byte 4, flags at byte 5, then PCR (6),
+// OPCR (6), splice_countdown (1), transport_private_data (1+n), extension (1+n), stuffing 0xFF.
+func afFlag(af *AdaptationField, m byte) bool { return af[5]&m != 0 }
+
+func afIf(b bool, n int) int {
+	if b {
+		return n
+	}
+	return 0
+}
+
+func afOPCRStart(af *AdaptationField) int   { return 6 + afIf(afFlag(af, 0x10), 6) }
+func afSpliceStart(af *AdaptationField) int { return afOPCRStart(af) + afIf(afFlag(af, 0x08), 6) }
+func afTPDStart(af *AdaptationField) int    { return afSpliceStart(af) + afIf(afFlag(af, 0x04), 1) }
+
+func afTPDLen(af *AdaptationField) int {
+	if !afFlag(af, 0x02) {
+		return 0
+	}
+	return 1 + int(af[afTPDStart(af)])
+}
+
+func afExtStart(af *AdaptationField) int { return afTPDStart(af) + afTPDLen(af) }
+
+func afExtLen(af *AdaptationField) int {
+	if !afFlag(af, 0x01) || afExtStart(af) >= 188 {
+		return 0
+	}
+	return 1 + int(af[afExtStart(af)])
+}
+
+// afContentEnd: one past the last non-stuffing byte of the adaptation field.
+func afContentEnd(af *AdaptationField) int { return afExtStart(af) + afExtLen(af) }
+
+// afEnd: one past the last byte of the adaptation field (= first payload byte).
+func afEnd(af *AdaptationField) int { return 5 + int(af[4]) }
+
+func afStuffed(af *AdaptationField, from, to int) bool {
+	return verifForall(0, 188, func(j int) bool { return !(from <= j && j < to) || af[j] == 0xff })
+}
+
+// afCanonical: a non-empty adaptation field that is a faithful ISO serialisation.
+func afCanonical(af *AdaptationField) bool {
+	return af[3]&0x20 != 0 && af[4] >= 1 && afEnd(af) <= 188 && afContentEnd(af) <= afEnd(af) &&
+		afStuffed(af, afContentEnd(af), afEnd(af))
+}
+
+// afSameOutside(af, old, lo, hi): every byte outside [lo,hi) is unchanged.
+func afSameOutside(af *AdaptationField, old AdaptationField, lo, hi int) bool {
+	return verifForall(0, 188, func(j int) bool { return (lo <= j && j < hi) || af[j] == old[j] })
+}
+
+func afMin(a, b int) int {
+	if a < b {
+		return a
+	}
+	return b
+}
+
+//@ transparent AdaptationField.setBit AdaptationField.getBit AdaptationField.bitDelta AdaptationField.valid
+//@ transparent AdaptationField.hasPCR AdaptationField.hasOPCR AdaptationField.hasSplicingPoint
+//@ transparent AdaptationField.hasTransportPrivateData AdaptationField.hasAdaptationFieldExtension
+//@ transparent AdaptationField.pcrLength AdaptationField.opcrLength AdaptationField.opcrStart
+//@ transparent AdaptationField.spliceCountdownLength AdaptationField.spliceCountdownStart
+//@ transparent AdaptationField.transportPrivateDataLength AdaptationField.transportPrivateDataStart
+//@ transparent AdaptationField.adaptationExtensionLength AdaptationField.adaptationExtensionStart
+
+//@ func (af *AdaptationField) stuffingStart() int
+//@   props C02 C03
+//@   requires af != nil
+//@   ensures result == afContentEnd(af)
+//@   modifies nothing
+
+//@ func (af *AdaptationField) stuffingEnd() int
+//@   props C02 C03
+//@   requires af != nil
+//@   ensures result == afMin(afEnd(af), 187)
+//@   modifies nothing
+
+//@ func (af *AdaptationField) setLength(length int)
+//@   props C02 C03
+//@   requires af != nil
+//@   ensures af[4] == byte(length)
+//@   modifies af[4..5]
+
+//@ func (af *AdaptationField) Length() int
+//@   props C02 C03
+//@   requires af != nil
+//@   ensures result == int(af[4])
+//@   modifies nothing
+
+//@ func (af *AdaptationField) stuffAF()
+//@   props C02 C03
+//@   requires af != nil
+//@   ensures afStuffed(af, old(afContentEnd(af)), old(afMin(afEnd(af), 187)))
+//@   ensures afSameOutside(af, old(*af), old(afContentEnd(af)), old(afMin(afEnd(af), 187)))
+//@   ensures forall j in 0..188 :: af[j] == afStuffedByte(old(*af), old(afContentEnd(af)), old(afMin(afEnd(af), 187)), j)
+//@   modifies *af
+//@   loop 1 (i int)
+//@     invariant 6 <= pre(i) && pre(i) <= i && (i <= old(afMin(afEnd(af), 187)) || i == pre(i)) && pre(i) == old(afContentEnd(af))
+//@     invariant af[4] == old(af[4])
+//@     invariant afStuffed(af, pre(i), i)
+//@     invariant afSameOutside(af, old(*af), pre(i), i)
+//@     decreases 188 - i
+
+//@ func initAdaptationField(p *Packet)
+//@   props C02
+//@   requires p != nil
+//@   ensures p[4] == 183 && p[5] == 0
+//@   ensures forall j in 6..188 :: p[j] == 0xff
+//@   ensures forall j in 0..4 :: p[j] == old(*p)[j]
+//@   modifies p[4..188]
+//@   loop 1 (i int, af *AdaptationField)
+//@     invariant 6 <= i && i <= 188 && af == (*AdaptationField)(p)
+//@     invariant p[4] == 183 && p[5] == 0
+//@     invariant forall j in 6..188 :: j < i ==> p[j] == 0xff
+//@     invariant forall j in 0..4 :: p[j] == old(*p)[j]
+//@     decreases 188 - i
+
+// afGrown: bytes [start, ce) moved right by d (the gap [start, start+d) keeps its old bytes).
+func afGrown(af *AdaptationField, old AdaptationField, start, ce, d int) bool {
+	return verifForall(0, 188, func(j int) bool { return af[j] == afGrownByte(old, start, ce, d, j) })
+}
+
+func afGrownByte(old AdaptationField, start, ce, d, j int) byte {
+	if start+d <= j && j < ce+d {
+		return old[j-d]
+	}
+	return old[j]
+}
+
+// afShrunk: bytes [start+n, ce) moved left by n, the freed tail [ce-n, ce) becomes stuffing.
+func afShrunk(af *AdaptationField, old AdaptationField, start, ce, n int) bool {
+	return verifForall(0, 188, func(j int) bool { return af[j] == afShrunkByte(old, start, ce, n, j) })
+}
+
+func afShrunkByte(old AdaptationField, start, ce, n, j int) byte {
+	if start <= j && j < ce-n {
+		return old[j+n]
+	}
+	if ce-n <= j && j < ce {
+		return 0xff
+	}
+	return old[j]
+}
+
+// afResized: the post-state of resizeAF as one function of the pre-state.
+func afResizedByte(old AdaptationField, start, ce, e187, delta, j int) byte {
+	if delta > 0 && e187 >= ce+delta {
+		return afGrownByte(old, start, ce, delta, j)
+	}
+	if delta < 0 {
+		return afShrunkByte(old, start, ce, -delta, j)
+	}
+	return old[j]
+}
+
+// afStuffedByte: stuffAF writes 0xFF over [from, to).
+func afStuffedByte(old AdaptationField, from, to, j int) byte {
+	if from <= j && j < to {
+		return 0xff
+	}
+	return old[j]
+}
+
+func afSame(af *AdaptationField, old AdaptationField) bool {
+	return verifForall(0, 188, func(j int) bool { return af[j] == old[j] })
+}
+
+//@ func (af *AdaptationField) resizeAF(start int, delta int) error
+//@   props C03
+//@   paths
+//@   requires af != nil && 6 <= start && start <= afContentEnd(af) && afContentEnd(af) <= 188
+//@   requires -256 <= delta && delta <= 1<<41 && (delta < 0 ==> start-delta <= afContentEnd(af))
+//@   ensures delta > 0 && old(afMin(afEnd(af), 187)) < old(afContentEnd(af))+delta ==> result == gots.ErrAdaptationFieldCannotGrow && afSame(af, old(*af))
+//@   ensures delta > 0 && old(afMin(afEnd(af), 187)) >= old(afContentEnd(af))+delta ==> result == nil && afGrown(af, old(*af), start, old(afContentEnd(af)), delta)
+//@   ensures delta < 0 ==> result == nil && afShrunk(af, old(*af), start, old(afContentEnd(af)), -delta)
+//@   ensures delta == 0 ==> result == nil && afSame(af, old(*af))
+//@   ensures forall j in 0..188 :: af[j] == afResizedByte(old(*af), start, old(afContentEnd(af)), old(afMin(afEnd(af), 187)), delta, j)
+//@   modifies *af
+//@   loop 1 (i int, end int, endRight int)
+//@     invariant end <= i && i <= endRight && endRight <= 188 && 6 <= end
+//@     invariant afStuffed(af, end, i)
+//@     invariant afSameOutside(af, pre(*af), end, i)
+//@     decreases endRight - i
+
+// ---------------------------------------------------------------- C02: header / payload partition
+
+// specHdrLen: 4 header bytes plus the adaptation field when flagged.
+func specHdrLen(p *Packet) int {
+	if specAFC(p)/2 == 1 {
+		return 5 + int(p[4])
+	}
+	return 4
+}
+
+//@ func payloadStart(packet *Packet) int
+//@   props C02
+//@   requires packet != nil
+//@   ensures result == specHdrLen(packet)
+//@   modifies nothing
+
+//@ func (p *Packet) payloadStart() int
+//@   props C02
+//@   requires p != nil
+//@   ensures result == specHdrLen(p)
+//@   modifies nothing
+
+//@ func Header(packet *Packet) []byte
+//@   props C02
+//@   requires packet != nil && specHdrLen(packet) <= 188
+//@   ensures len(result) == specHdrLen(packet) && &result[0] == &packet[0]
+//@   modifies nothing
+
+//@ func Payload(packet *Packet) (pay []byte, err error)
+//@   props C02
+//@   requires packet != nil
+//@   ensures specAFC(packet)%2 == 0 ==> pay == nil && err == gots.ErrNoPayload
+//@   ensures specAFC(packet)%2 == 1 && specHdrLen(packet) > 188 ==> pay == nil && err == gots.ErrInvalidPacketLength
+//@   ensures specAFC(packet)%2 == 1 && specHdrLen(packet) <= 188 ==> err == nil && len(pay) == 188-specHdrLen(packet)
+//@   ensures specAFC(packet)%2 == 1 && specHdrLen(packet) < 188 ==> &pay[0] == &packet[specHdrLen(packet)]
+//@   modifies nothing
+
+//@ func (p *Packet) Payload() (pay []byte, err error)
+//@   props C02
+//@   requires p != nil && specHdrLen(p) <= 188
+//@   ensures specAFC(p) == 2 ==> pay == nil && err == gots.ErrNoPayload
+//@   ensures specAFC(p) != 2 ==> err == nil && fresh(pay) && len(pay) == 188-specHdrLen(p)
+//@   ensures specAFC(p) != 2 ==> forall k in 0..188 :: k < len(pay) ==> pay[k] == p[specHdrLen(p)+k]
+//@   modifies nothing
+
+//@ func (p *Packet) AdaptationField() (af *AdaptationField, err error)
+//@   props C02 C03
+//@   requires p != nil
+//@   ensures specAFC(p)/2 == 1 ==> af == (*AdaptationField)(p) && err == nil
+//@   ensures specAFC(p)/2 == 0 ==> af == nil && err == gots.ErrNoAdaptationField
+//@   modifies nothing
+
+//@ func (p *Packet) stuffingStart() int
+//@   props C02
+//@   requires p != nil
+//@   ensures specAFC(p)/2 == 0 ==> result == 4
+//@   ensures specAFC(p)/2 == 1 && p[4] == 0 ==> result == 5
+//@   ensures specAFC(p)/2 == 1 && p[4] != 0 ==> result == afContentEnd((*AdaptationField)(p))
+//@   modifies nothing
+
+//@ func (p *Packet) freeSpace() int
+//@   props C02
+//@   requires p != nil
+//@   ensures specAFC(p)/2 == 0 ==> result == 184
+//@   ensures specAFC(p)/2 == 1 && p[4] == 0 ==> result == 183
+//@   ensures specAFC(p)/2 == 1 && p[4] != 0 ==> result == 188-afContentEnd((*AdaptationField)(p))
+//@   modifies nothing
+
+// specWF: the packets C02 quantifies over: adaptation_field_control not reserved, the header
+// fits, and a non-empty adaptation field is a faithful ISO serialisation.
+func specWF(p *Packet) bool {
+	if specAFC(p) == 0 || specHdrLen(p) > 188 {
+		return false
+	}
+	if specAFC(p)/2 == 1 && p[4] != 0 {
+		return afCanonical((*AdaptationField)(p))
+	}
+	return true
+}
+
+// specCapacity: 188 minus the 4 header bytes minus the non-stuffing content of the adaptation field.
+func specCapacity(p *Packet) int {
+	if specAFC(p)/2 == 0 {
+		return 184
+	}
+	if p[4] == 0 {
+		return 183
+	}
+	return 188 - afContentEnd((*AdaptationField)(p))
+}
+
+// specAFContentEndP: where the non-stuffing header content ends (4 without adaptation field,
+// 5 for an empty one).
+func specHeaderContentEnd(p *Packet) int {
+	if specAFC(p)/2 == 0 {
+		return 4
+	}
+	if p[4] == 0 {
+		return 5
+	}
+	return afContentEnd((*AdaptationField)(p))
+}
+
+func specBytesSame(p *Packet, old Packet, lo, hi int) bool {
+	return verifForall(0, 188, func(j int) bool { return !(lo <= j && j < hi) || p[j] == old[j] })
+}
+
+func specBytesFF(p *Packet, lo, hi int) bool {
+	return verifForall(0, 188, func(j int) bool { return !(lo <= j && j < hi) || p[j] == 0xff })
+}
+
+// specSetAFCByte: byte j after SetAdaptationFieldControl(value) as a function of the old packet.
+func specSetAFCByte(old Packet, value byte, j int) byte {
+	hadAF := (old[3]>>5)%2 == 1
+	if j < 3 {
+		return old[j]
+	}
+	if j == 3 {
+		return old[3]&0xcf | value<<4
+	}
+	if !hadAF && value/2 == 1 {
+		// a fresh adaptation field: length 183 (182 next to a payload), no flags, stuffing
+		if j == 4 {
+			if value == 3 {
+				return 182
+			}
+			return 183
+		}
+		if j == 5 {
+			return 0
+		}
+		return 0xff
+	}
+	if hadAF && value == 3 && old[4] == 183 {
+		oaf := AdaptationField(old)
+		ce := afContentEnd(&oaf)
+		if ce >= 188 {
+			return old[j]
+		}
+		if j == 4 {
+			return 182
+		}
+		if ce <= j && j < 187 {
+			return 0xff
+		}
+	}
+	return old[j]
+}
+
+//@ func (p *Packet) SetAdaptationFieldControl(value AdaptationFieldControlOptions) error
+//@   props C02
+//@   paths
+//@   requires p != nil && value <= 3
+//@   ensures forall j in 0..188 :: p[j] == specSetAFCByte(old(*p), byte(value), j)
+//@   ensures specAFC(p) == byte(value) && p[3]&0xcf == old(p[3])&0xcf && specBytesSame(p, old(*p), 0, 3)
+//@   ensures old(specAFC(p))/2 == 1 && !(value == 3 && old(p[4]) == 183) ==> result == nil && specBytesSame(p, old(*p), 4, 188)
+//@   ensures old(specAFC(p))/2 == 0 && value/2 == 0 ==> result == nil && specBytesSame(p, old(*p), 4, 188)
+//@   ensures old(specAFC(p))/2 == 0 && value == 2 ==> result == nil && p[4] == 183 && p[5] == 0 && specBytesFF(p, 6, 188)
+//@   ensures old(specAFC(p))/2 == 0 && value == 3 ==> result == nil && p[4] == 182 && p[5] == 0 && specBytesFF(p, 6, 188)
+//@   ensures old(specAFC(p))/2 == 1 && value == 3 && old(p[4]) == 183 && old(afContentEnd((*AdaptationField)(p))) < 188 ==> result == nil && p[4] == 182 && specBytesSame(p, old(*p), 5, old(afContentEnd((*AdaptationField)(p)))) && specBytesFF(p, old(afContentEnd((*AdaptationField)(p))), 187) && p[187] == old(p[187])
+//@   ensures old(specAFC(p))/2 == 1 && value == 3 && old(p[4]) == 183 && old(afContentEnd((*AdaptationField)(p))) >= 188 ==> result == gots.ErrAdaptationFieldTooLarge && specBytesSame(p, old(*p), 4, 188)
+//@   modifies *p
+
+//@ func (p *Packet) SetPayload(data []byte) (n int, err error)
+//@   props C02
+//@   paths
+//@   requires p != nil && specWF(p) && verifSeparate(p, data)
+//@   ensures old(specAFC(p)) == 2 ==> n == 0 && err == gots.ErrNoPayload && specBytesSame(p, old(*p), 0, 188)
+//@   ensures old(specAFC(p)) != 2 ==> err == nil && n == afMin(len(data), old(specCapacity(p)))
+//@   ensures old(specAFC(p)) != 2 ==> specHdrLen(p) == 188-n && specAFC(p)%2 == 1
+//@   ensures old(specAFC(p)) != 2 ==> forall j in 0..188 :: j >= 188-n ==> p[j] == data[j-(188-n)]
+//@   ensures old(specAFC(p)) != 2 ==> specBytesSame(p, old(*p), 0, 3) && p[3]&0xcf == old(p[3])&0xcf
+//@   ensures old(specAFC(p)) == 3 && old(p[4]) != 0 ==> specBytesSame(p, old(*p), 5, old(specHeaderContentEnd(p)))
+//@   ensures old(specAFC(p)) == 3 && old(p[4]) != 0 ==> specBytesFF(p, old(specHeaderContentEnd(p)), 188-n) && specWF(p)
+//@   ensures old(specAFC(p)) == 1 ==> (n == 184 || (n == 183 && p[4] == 0) || (p[5] == 0 && specBytesFF(p, 6, 188-n))) && specWF(p)
+//@   ensures old(specAFC(p)) == 3 && old(p[4]) == 0 && len(data) >= 183 ==> p[4] == 0 && specWF(p)
+//@   ensures old(specAFC(p)) == 3 && old(p[4]) == 0 && len(data) < 183 ==> p[5] == 0 && specBytesFF(p, 6, 188-n) && specWF(p)
+//@   modifies *p
+
+// ---------------------------------------------------------------- C03: adaptation field setters
+
+// afToggleByte: byte j after inserting (on) or removing (!on) an n-byte field at offset at, with
+// the presence flag m in byte 5 updated; inserted bytes are unspecified (they keep the old bytes).
+func afToggleByte(old AdaptationField, on bool, m byte, at, n, j int) byte {
+	ce := afContentEnd(&old)
+	if j == 5 {
+		if on {
+			return old[5] | m
+		}
+		return old[5] &^ m
+	}
+	if on {
+		return afGrownByte(old, at, ce, n, j)
+	}
+	return afShrunkByte(old, at, ce, n, j)
+}
+
+//@ func (af *AdaptationField) SetHasPCR(value bool) error
+//@   props C03
+//@   requires af != nil && afCanonical(af)
+//@   ensures value == old(afFlag(af, 0x10)) ==> result == nil && afSame(af, old(*af))
+//@   ensures value && !old(afFlag(af, 0x10)) && old(afContentEnd(af))+6 > old(afEnd(af)) ==> result != nil && afSame(af, old(*af))
+//@   ensures value && !old(afFlag(af, 0x10)) && old(afContentEnd(af))+6 <= old(afEnd(af)) ==> result == nil
+//@   ensures !value && old(afFlag(af, 0x10)) ==> result == nil
+//@   ensures value != old(afFlag(af, 0x10)) && result == nil ==> forall j in 0..188 :: af[j] == afToggleByte(old(*af), value, 0x10, 6, 6, j)
+//@   ensures result == nil ==> afCanonical(af)
+//@   modifies *af
 
 var _ = gots.ErrNoPayload
